@@ -498,3 +498,80 @@ func TestRegr_C17_listed_after_accept(t *testing.T) {
 		t.Fatalf("resubmission of the marked header answered %v", err)
 	}
 }
+
+// TestRegr_C12_shorter_chain_crash (real API, production constants): the saved best chain ends in
+// header file 0b (tip 11006, on an unconsolidated side branch that starts above 11000); a heavier
+// but SHORTER chain (tip 10993, file 0a) then becomes best and Clean rewrites the main header files
+// for it. saveMainBranch used to delete the following file (0b) right away; a crash before the
+// branch files were rewritten left the old index and branches, which still need that file: "Load:
+// historical heights: read: headers/0000000b: Not found". Found by the thorough tier of
+// TestProp_C12_deep after bulk growth was added; repaired by deleting the file after the branches
+// are saved.
+func TestRegr_C12_shorter_chain_crash(t *testing.T) {
+	ctx := vt.Ctx()
+	store := memstore.New()
+	cfg := &headers.Config{Network: bitcoin.MainNet, MaxBranchDepth: 144}
+	repo := headers.NewRepository(cfg, store)
+	repo.DisableDifficulty()
+	repo.InitializeWithGenesis()
+	raws := chainOf(t, repo, 11003)
+	add := func(prev model.RawHeader, bits uint32, nonce uint32) model.RawHeader {
+		raw := model.RawHeader{Version: 1, Prev: prev.Hash(), Timestamp: prev.Timestamp + 600, Bits: bits, Nonce: nonce}
+		if err := repo.ProcessHeader(ctx, toWire(&raw)); err != nil {
+			t.Fatalf("header: %s", err)
+		}
+		return raw
+	}
+	// side branch from 11001, five headers with a little more work each: best chain 11006
+	p := raws[11001]
+	for i := 0; i < 5; i++ {
+		p = add(p, 0x1d00aaaa, uint32(800000+i))
+	}
+	if repo.Height() != 11006 {
+		t.Fatalf("setup: height %d", repo.Height())
+	}
+	if err := repo.Save(ctx); err != nil {
+		t.Fatal(err)
+	}
+	workAtSave := repo.AccumulatedWork()
+	// heavier but shorter: three very heavy headers from 10990
+	p = raws[10990]
+	for i := 0; i < 3; i++ {
+		p = add(p, 0x1b00ffff, uint32(810000+i))
+	}
+	if repo.Height() != 10993 {
+		t.Fatalf("setup: heavier but shorter chain did not take (height %d)", repo.Height())
+	}
+	j0, snap0 := store.JournalLen(), store.Snapshot()
+	if err := repo.Clean(ctx); err != nil {
+		t.Fatalf("Clean: %s", err)
+	}
+	ops := store.JournalSince(j0)
+	for k := 0; k <= len(ops); k++ {
+		img := memstore.FromSnapshot(snap0, ops[:k])
+		loaded := headers.NewRepository(cfg, img)
+		loaded.DisableDifficulty()
+		var err error
+		if pn := vt.Catch(func() { err = loaded.Load(ctx) }); pn != nil {
+			t.Fatalf("crash after %d of %d storage operations of Clean: Load panicked: %v", k, len(ops), pn)
+		}
+		if err != nil {
+			t.Fatalf("crash after %d of %d storage operations of Clean: Load failed: %s", k, len(ops), err)
+		}
+		if loaded.AccumulatedWork().Cmp(workAtSave) < 0 {
+			t.Fatalf("crash after %d of %d storage operations: loaded chain has less work than at the last Save", k, len(ops))
+		}
+		// linked from the tip down through the recent window
+		h := loaded.Height()
+		for x := h; x > h-30; x-- {
+			hdr, err := loaded.Header(ctx, x)
+			if err != nil {
+				t.Fatalf("image %d: Header(%d): %s", k, x, err)
+			}
+			below, err := loaded.Hash(ctx, x-1)
+			if err != nil || !hdr.PrevBlock.Equal(below) {
+				t.Fatalf("image %d: header %d does not link to the hash reported at %d", k, x, x-1)
+			}
+		}
+	}
+}
